@@ -132,7 +132,13 @@ func straceOp(op, dir, mid string) ([]string, error) {
 			continue
 		}
 		if strings.Contains(line, "unlink") && strings.Contains(line, dir) {
-			calls = append(calls, "unlink "+line)
+			path := line
+			if i := strings.Index(line, "\""); i >= 0 {
+				if j := strings.Index(line[i+1:], "\""); j >= 0 {
+					path = rel(line[i+1 : i+1+j])
+				}
+			}
+			calls = append(calls, "unlink "+path)
 		}
 		_ = pid
 	}
@@ -175,13 +181,23 @@ func runC11(ctx *Ctx) error {
 	var mlines []string
 	var straced [][]string
 	var descr []string
-	for i, op := range []string{"addout", "inbound", "setunread", "setsent"} {
+	for i, opv := range []string{"addout", "inbound", "setunread", "setsent", "addout-again", "inbound-again"} {
 		dir := filepath.Join(root, "st"+fmt.Sprint(i))
 		mid := "MSG" + fmt.Sprint(i)
 		h := mailbox.NewDirHandler(dir, false)
 		h.Prepare()
 		m := c11Message(mid, 2000)
 		var fop string
+		op := strings.TrimSuffix(opv, "-again")
+		if op != opv {
+			// an older copy under the same MID is already stored: the operation must replace it
+			// atomically (same call sequence as a first store: no unlink of the old copy first)
+			if op == "addout" {
+				h.AddOut(c11Message(mid, 900))
+			} else {
+				h.ProcessInbound(c11Message(mid, 900))
+			}
+		}
 		switch op {
 		case "addout":
 			b, _ := m.Bytes()
@@ -208,8 +224,8 @@ func runC11(ctx *Ctx) error {
 		}
 		mlines = append(mlines, "crashcalls "+fop)
 		straced = append(straced, calls)
-		descr = append(descr, op)
-		res.Eval("strace:"+op, true)
+		descr = append(descr, opv)
+		res.Eval("strace:"+opv, true)
 		res.Count("strace")
 	}
 	mout, err := ctx.Model.Run(mlines)
@@ -398,6 +414,7 @@ func runC11(ctx *Ctx) error {
 // folder still loads and no incomplete message is visible.
 func c11ObservedCrashSearch(ctx *Ctx, root string, idx int, op string, calls []string) {
 	res := ctx.Res
+	op = strings.TrimSuffix(op, "-again")
 	mid := "MSG" + fmt.Sprint(idx)
 	newB, _ := c11Message(mid, 2000).Bytes()
 	oldB, _ := c11Message(mid, 100).Bytes()
@@ -433,6 +450,8 @@ func c11ObservedCrashSearch(ctx *Ctx, root string, idx int, op string, calls []s
 					}
 				case "rename":
 					os.Rename(filepath.Join(dir, f[1]), filepath.Join(dir, f[2]))
+				case "unlink":
+					os.Remove(filepath.Join(dir, f[1]))
 				}
 			}
 			for c := 0; c < k; c++ {
@@ -448,6 +467,9 @@ func c11ObservedCrashSearch(ctx *Ctx, root string, idx int, op string, calls []s
 				if _, err := lister(); err != nil {
 					res.Fail(Failure{Kind: "oracle", Site: "folder-does-not-load", Case: cs, Detail: folderNames[fi] + ": " + err.Error()})
 				}
+			}
+			if _, err := os.Stat(filepath.Join(dir, folder, mid+".b2f")); err != nil && op != "setsent" {
+				res.Fail(Failure{Kind: "oracle", Site: "stored-message-lost", Case: cs, Detail: "the copy stored before the operation is gone and no new copy is in place"})
 			}
 			if raw, err := os.ReadFile(filepath.Join(dir, folder, mid+".b2f")); err == nil && op != "setsent" {
 				if !bytes.Equal(raw, oldB) && !bytes.Equal(raw, newB) {
